@@ -537,6 +537,7 @@ def run_acyclic(sc):
     log = list(mod.LOG)
     del mod.LOG[:]
     obs["log"] = [n for n, _, _ in log]
+    obs["log_full"] = [[n, {k: canon_val(sc, v) for k, v in kw.items()}] for n, _, kw in log]  # snapshot now: live objects
     if fails:
         return fails, obs
     # each class exactly once
@@ -566,6 +567,66 @@ def run_acyclic(sc):
         if not ok:
             fails.append("parameter %s of %s did not receive the linked value (got %s)" % (slot, tobj, type(got).__name__ if not isinstance(got, str) else got))
     return fails, obs
+
+
+def dest_of_class(sc, clsname):
+    """flow-model component dest of the object a generated class is constructed for (as a link source would name it)"""
+    for o in all_objects(sc):
+        if class_of(sc, o) == clsname:
+            c = comp_by_name(sc, comp_of(o))
+            if c["kind"] == "deepgroup" and obj_level(o) >= 1:
+                return c["name"] + ".child" if obj_level(o) == 1 else c["name"] + ".child.grandchild"
+            return c["name"] if obj_level(o) == 0 or c["kind"] == "deepgroup" else c["name"] + "/" + "/".join(o.split("/")[1:])
+    return "?" + clsname
+
+
+def canon_val(sc, v):
+    """a value received by a constructor, in the model's symbolic form (Val of Core/GraphFlow)"""
+    from jsonargparse import Namespace
+
+    if isinstance(v, str):
+        return {"raw": v}
+    if isinstance(v, list) and v and v[0] in ("f1", "f2"):
+        return {"app": [v[0], [canon_val(sc, x) for x in v[1:]]]}
+    if isinstance(v, list) and len(v) == 1 and isinstance(v[0], str) and v[0][-3:] in (".at", ".bt"):
+        return {"attr": [{"obj": dest_of_class(sc, v[0][:-3])}, v[0][-2:]]}
+    if isinstance(v, (Namespace, dict)):
+        return {"ns": "?"}
+    name = type(v).__name__
+    if re.fullmatch(r"[KRCG]\d", name):
+        return {"obj": dest_of_class(sc, name)}
+    return {"other": name}
+
+
+def flow_case(sc, reorder_call):
+    """driver input for the value-flow model: the scenario's links, the order and the component sequence the real
+    instantiate_classes used (recorded), each component flagged: constructs a class"""
+    classes = set()
+    for c in sc["comps"]:
+        classes.add(c["name"])
+        if c["kind"] == "deepgroup":
+            classes.add(c["name"] + ".child")
+    links = [{"sources": [[source_key(sc, [o, None]), a] for o, a in l["sources"]], "target": target_key(sc, l["target"]), "fn": l.get("fn")}
+             for l in sc["links"]]
+    return {"op": "flow", "links": links, "order": reorder_call["order"], "comps": [[d, d in classes] for d in reorder_call["result"]]}
+
+
+def flow_expectation(sc, log_full):
+    """what the real run showed, in the shape of the model's answer: (component construction sequence,
+    {target key: received value}) — the received value is read from the constructor call of the class owning the slot"""
+    seq = []
+    for name, _ in log_full:
+        o = next(x for x in all_objects(sc) if class_of(sc, x) == name)
+        c = comp_by_name(sc, comp_of(o))
+        d = c["name"] + ".child" if (c["kind"] == "deepgroup" and obj_level(o) >= 1) else c["name"]
+        if not seq or seq[-1] != d:
+            seq.append(d)
+    received = {}
+    kws = {n: kw for n, kw in log_full}
+    for l in sc["links"]:
+        tobj, slot = l["target"]
+        received[target_key(sc, l["target"])] = kws.get(class_of(sc, tobj), {}).get(slot)
+    return seq, received
 
 
 def same_value(got, want):
@@ -1048,6 +1109,122 @@ def correspond_parsers(ctx, items, state):
                                   json.dumps({"scenario": sc, "real": extra, "model": m.get("schedule")})[:1800])
 
 
+def correspond_flow(ctx, state):
+    """value flow: constructor sequence and the argument every fed parameter received, real run vs model
+    (`instantiateClasses` of Core/GraphFlow walked along the component sequence the real call used)"""
+    items = state["flow_items"]
+    model = driver(ctx, [flow_case(sc, call) for sc, call, _ in items], "value flow")
+    ctx.extra["value_flow_runs_compared"] = len(items)
+    if model is None:
+        return
+    n_vals = 0
+    for (sc, call, log_full), m in zip(items, model):
+        ctx.count()
+        seq, received = flow_expectation(sc, log_full)
+        m_seq = [e[0] for e in m.get("log", [])]
+        m_recv = {}
+        for dest, kvs in m.get("log", []):
+            for k, v in kvs:
+                m_recv.setdefault(k, v)  # the first constructor call that sees the key is the one owning it
+        bad = None
+        if m_seq != seq:
+            bad = "constructor sequence"
+        elif not m.get("ready"):
+            bad = "model says a source is not constructed when its link is applied, the real run succeeded"
+        elif m.get("applied_end") != []:
+            bad = "applied set left in cfg"
+        else:
+            for k, v in received.items():
+                n_vals += 1
+                if m_recv.get(k) != v:
+                    bad = "argument received through %s" % k
+                    break
+        if bad:
+            state["flow_disagreements"] += 1
+            if state["flow_disagreements"] <= 3:
+                ctx.tie_break("correspondence E5 (value flow: %s) disagrees" % bad,
+                              json.dumps({"scenario": sc, "real": {"sequence": seq, "received": received}, "model": m})[:1900])
+    ctx.extra["value_flow_arguments_compared"] = n_vals
+    ctx.extra["value_flow_disagreements"] = state["flow_disagreements"]
+
+
+def bookkeeping_oracle(ctx, state, scenarios):
+    """C16_bookkeeping_fresh on the real code: on ONE parser, a failing instantiate_classes call (a compute_fn that
+    raises once) followed by a good one: the second call must construct every class once and feed every parameter;
+    and nothing about applied links may survive on the parser or in the caller's cfg"""
+    mod = gen_module()
+    for sc in scenarios:
+        if not any(l.get("fn") for l in sc["links"]) or first_cycle_index(sc) is not None:
+            continue
+        if nested_target_in_source(sc) or nested_source_below_linked(sc):
+            continue
+        try:
+            parser, raised_at, _ = build_parser(sc)
+        except Exception:  # noqa: BLE001
+            continue
+        if raised_at is not None:
+            continue
+        cfg = parser.parse_args(parse_args_for(sc))
+        before = set(vars(parser))  # baseline right before the failing call (parse_args itself sets parser.args)
+
+        def boom(*a):
+            raise RuntimeError("compute_fn fails on purpose")
+
+        # the link actions hold the function objects: patch their compute_fn for the first call
+        from jsonargparse._link_arguments import get_link_actions
+
+        acts = [a for a in get_link_actions(parser, "instantiate") if a.compute_fn is not None]
+        saved = [(a, a.compute_fn) for a in acts]
+        a_last = acts[-1]
+        a_last.compute_fn = boom
+        del mod.LOG[:]
+        failed = False
+        try:
+            parser.instantiate_classes(cfg)
+        except Exception:  # noqa: BLE001
+            failed = True
+        for a, f in saved:
+            a.compute_fn = f
+        del mod.LOG[:]
+        ctx.count()
+        state["bookkeeping_runs"] += 1
+        problems = []
+        if not failed:
+            continue
+        new_attrs = sorted(set(vars(parser)) - before)
+        if new_attrs:
+            problems.append("the failed call left new attributes on the parser: %s" % new_attrs)
+        if "__applied_instantiation_links__" in cfg:
+            problems.append("the failed call left the applied-links key in the caller's cfg")
+        try:
+            parser.instantiate_classes(cfg)
+        except Exception as ex:  # noqa: BLE001
+            problems.append("the call after a failed one raised %s: %s" % (type(ex).__name__, str(ex)[:120]))
+        log = list(mod.LOG)
+        del mod.LOG[:]
+        if not problems:
+            first = {}
+            for name, inst, kw in log:
+                if name in first:
+                    problems.append("class %s constructed more than once after a failed call" % name)
+                first[name] = (inst, kw)
+            for l in sc["links"]:
+                tobj, slot = l["target"]
+                if class_of(sc, tobj) not in first:
+                    problems.append("class %s not constructed after a failed call" % class_of(sc, tobj))
+                    continue
+                exp = []
+                for sobj, attr in l["sources"]:
+                    sinst = first.get(class_of(sc, sobj), (None, None))[0]
+                    exp.append(getattr(sinst, attr) if attr and sinst is not None else sinst)
+                want = [l["fn"]] + exp if l.get("fn") else exp[0]
+                if not same_value(first[class_of(sc, tobj)][1][slot], want):
+                    problems.append("after a failed call parameter %s of %s did not receive the linked value" % (slot, tobj))
+        if problems and state["e2e_violations"] < 4:
+            state["e2e_violations"] += 1
+            ctx.violation("instantiate_classes after a failed call: " + problems[0], {"kind": "e2e-after-failure", "scenario": sc, "failures": problems[:5]})
+
+
 def run_e2e(ctx, state, n_shapes, cap, n_cyclic, corpus_scenarios):
     from ..lib import corpus as corpus_mod  # noqa: F401
 
@@ -1078,6 +1255,8 @@ def run_e2e(ctx, state, n_shapes, cap, n_cyclic, corpus_scenarios):
                 ctx.nontrivial(key)
             if "parser" in obs and len(items) < state["max_parser_corr"]:
                 items.append((sc, obs["parser"], obs.get("reorder_calls"), obs.get("schedule") if not fails else None))
+                if not fails and obs.get("reorder_calls"):
+                    state["flow_items"].append((sc, obs["reorder_calls"][0], obs["log_full"]))
         classify_e2e(ctx, sc, fails, cyclic, state, origin)
 
     for c in corpus_scenarios:
@@ -1127,6 +1306,9 @@ def run_e2e(ctx, state, n_shapes, cap, n_cyclic, corpus_scenarios):
         ctx.sample({"e2e": {"comps": sc["comps"], "links": [[[source_key(sc, s) for s in l["sources"]], target_key(sc, l["target"]), l.get("fn")] for l in sc["links"]]}})
     correspond_parsers(ctx, items, state)
     correspond_pure_inst_order(ctx, state)
+    correspond_flow(ctx, state)
+    bookkeeping_oracle(ctx, state, [sc for sc, _, _ in state["flow_items"]][: ctx.budget(150, 1500)])
+    ctx.extra["after_failure_runs"] = state["bookkeeping_runs"]
 
 
 def run(ctx: Ctx):
@@ -1143,9 +1325,10 @@ def run(ctx: Ctx):
         "interpreter recursion limit (chains of ~1000 links) is outside the model; the model's fuel is proved never to run out",
         "nested links applied inside a subclass (is_nested_instantiation_link) and links skipped because a source attribute is missing are outside the generator",
     ]
-    ctx.lean_build(extractors=[])
+    ctx.lean_build(extractors=["link_bookkeeping"])
     state = {"graph_violations": 0, "graph_disagreements": 0, "neighbour_graphs": [], "reorder_violations": 0, "reorder_disagreements": 0,
-             "e2e_violations": 0, "e2e_acyclic": 0, "e2e_cyclic": 0, "known_hits": 0, "inst_disagreements": 0, "max_parser_corr": ctx.budget(400, 4000)}
+             "e2e_violations": 0, "e2e_acyclic": 0, "e2e_cyclic": 0, "known_hits": 0, "inst_disagreements": 0, "max_parser_corr": ctx.budget(400, 4000),
+             "flow_items": [], "flow_disagreements": 0, "bookkeeping_runs": 0}
 
     from ..lib import corpus as corpus_mod
 
@@ -1273,6 +1456,23 @@ def replay(ctx: Ctx, body):
             print("constructor log:", obs.get("log"))
         print("failures:", fails)
         return 1 if fails else 0
+    if kind == "e2e-after-failure":
+        st = {"e2e_violations": 0, "bookkeeping_runs": 0}
+
+        class _C:  # minimal stand-in collecting the verdict
+            def __init__(self):
+                self.bad = []
+
+            def count(self, n=1):
+                pass
+
+            def violation(self, what, body):
+                self.bad.append(what)
+
+        c = _C()
+        bookkeeping_oracle(c, st, [r["scenario"]])
+        print("after-failure oracle:", c.bad or "ok")
+        return 1 if c.bad else 0
     if "broken" in r:
         print("tie broken without a failing input:", json.dumps(r["broken"], indent=1)[:3000])
         return 1
